@@ -187,16 +187,17 @@ def polyEval (O : Ops α) (p : List α) (x : α) : α :=
   p.foldr (fun c acc => O.add (O.mul acc x) c) O.zero
 
 /-- specification-level model of `fft::interpolate_poly` over the subgroup generated by
-    `w = get_root_of_unity(log2 m)`: the inverse DFT `c_k = (Σ_i v_i w^(-ik)) / m`
-    (C09 ties the FFT to this); `none` when the root is missing or the division does not return -/
+    `w = get_root_of_unity(log2 m)`: the inverse DFT `c_k = (Σ_i v_i w^(-ik)) · m⁻¹`, with the one
+    inversion `inv_length = inv(m)` the code performs (C09 ties the FFT to this);
+    `none` when the root is missing or the inversion does not return -/
 def interpolate (O : Ops α) (vs : List α) : Option (List α) :=
   let m := vs.length
-  match O.root (Nat.log2 m) with
-  | none => none
-  | some w =>
-    (List.range m).mapM (fun k =>
-      let s := vs.zipIdx.foldl (fun acc (v, i) => O.add acc (O.mul v (O.pow w ((m - (i * k) % m) % m)))) O.zero
-      O.div s (O.ofNat m))
+  match O.root (Nat.log2 m), O.div O.one (O.ofNat m) with
+  | some w, some minv =>
+    some ((List.range m).map (fun k =>
+      O.mul (vs.zipIdx.foldl (fun acc (v, i) => O.add acc (O.mul v (O.pow w ((m - (i * k) % m) % m)))) O.zero)
+        minv))
+  | _, _ => none
 
 /-- `BoundaryConstraint` without the composition coefficient -/
 structure BConstraint (α : Type) where
